@@ -60,7 +60,8 @@ def run(tier, seed, replay=None):
                 if not any(l.startswith("ok tables") for l in lines):
                     problems.append("exit 0 but the output font is not complete/valid: %s" % lines[:4])
                 else:
-                    ok_fonts.setdefault(setup.get("gdl", "GOOD"), {})[name] = hashlib.sha256(open(outp, "rb").read()).hexdigest()
+                    # (fonts are compared within one program AND one input font)
+                    ok_fonts.setdefault((setup.get("gdl", "GOOD"), bool(setup.get("font_recompiled"))), {})[name] = hashlib.sha256(open(outp, "rb").read()).hexdigest()
             elif r["rc"] != 0:
                 # failure: the output path keeps its previous content or does not exist -- never a partial file.
                 if is_file:
